@@ -37,6 +37,9 @@ type VInfoJ struct {
 	Dt      string `json:"dt"`
 	Dims    []any  `json:"dims"`
 	NoShape bool   `json:"noshape,omitempty"`
+	// how the shape is missing (NoShape): "" = no type at all, "tensor" = a non-tensor type,
+	// "shape" = tensor type without shape, "dims" = a shape with no dimensions
+	How string `json:"how,omitempty"`
 }
 
 type InitJ struct {
@@ -48,6 +51,14 @@ type InitJ struct {
 func mkValueInfo(v VInfoJ) *onnx.ValueInfoProto {
 	vi := &onnx.ValueInfoProto{Name: v.Name}
 	if v.NoShape {
+		switch v.How {
+		case "tensor":
+			vi.Type = &onnx.TypeProto{Value: &onnx.TypeProto_SequenceType{SequenceType: &onnx.TypeProto_Sequence{}}}
+		case "shape":
+			vi.Type = &onnx.TypeProto{Value: &onnx.TypeProto_TensorType{TensorType: &onnx.TypeProto_Tensor{ElemType: 1}}}
+		case "dims":
+			vi.Type = &onnx.TypeProto{Value: &onnx.TypeProto_TensorType{TensorType: &onnx.TypeProto_Tensor{ElemType: 1, Shape: &onnx.TensorShapeProto{}}}}
+		}
 		return vi
 	}
 	sh := &onnx.TensorShapeProto{}
